@@ -162,6 +162,17 @@ def finish(prop, tier, seed, packs, results, t0, a):
         confirmed = None
         try:
             confirmed = rp.try_native(prop, o, rep, REPO)
+            if confirmed is None:
+                # pack-provided replay for ground/structural obligations
+                best = None
+                for p_ in packs:
+                    for t_ in p_.tasks:
+                        if t_.replay and o["name"].startswith(prop + "." + t_.name + "."):
+                            if best is None or len(t_.name) > len(best.name):
+                                best = t_
+                if best is not None:
+                    confirmed, info = best.replay(o, REPO)
+                    rep["native"] = info
         except Exception as ex:
             rep["native_error"] = "%s: %s" % (type(ex).__name__, ex)
         rep["native_confirmed"] = confirmed
